@@ -425,7 +425,7 @@ pub mod harness {
         let signed: bool = kani::any();
         kani::assume(w >= 1 && w <= 64 && w >= x.width as usize);
         kani::assume(!signed || x.signed);
-        kani::assume(y.signed && (y.payload >> (y.width - 1)) & 1 == 1 && (y.mask_xz >> (y.width - 1)) & 1 == 0);
+        kani::assume(y.signed && (y.payload >> (y.width - 1)) & 1 == 1 && y.mask_xz == 0);
         let r = bin(Op::Pow, &x, &y, w, signed);
         let (xp, xm) = ext(&x, w, signed);
         let full = rmask(w);
@@ -439,6 +439,20 @@ pub mod harness {
         } else {
             assert!(r.mask_xz == 0 && r.payload == 0);
         }
+    }
+
+    // an exponent with any x/z bit (also one whose sign position is set) makes the whole result x (§11.4.2)
+    #[vp_proof]
+    pub fn op_pow_xz_exponent() {
+        let x = any_v64_sized();
+        let y = any_v64_sized();
+        let w: usize = kani::any();
+        let signed: bool = kani::any();
+        kani::assume(w >= 1 && w <= 64 && w >= x.width as usize);
+        kani::assume(!signed || x.signed);
+        kani::assume(y.mask_xz != 0);
+        let r = bin(Op::Pow, &x, &y, w, signed);
+        assert!(all_x(&r, w));
     }
 
     // ---- unary ------------------------------------------------------------------------------------------------
